@@ -173,6 +173,15 @@ def check(case):
     ctx = "W=%s means=%s variances=%s dtypes=%s do=%s noise=%s shift=%s" % (
         case["W"] if p <= 12 else "<%dx%d>" % (p, p), case["means"], case["variances"], dt, case.get("do"), case.get("noise"), case.get("shift"))
     _compare_call(model, law, kwargs, p, "mean_wrong", "cov_wrong", ctx)
+    # the caller keeps its dictionaries and passes the very same objects again, one intervention type at a time
+    for nm, key in (("noise", "noise_interventions"), ("shift", "shift_interventions"), ("do", "do_interventions")):
+        if isinstance(kwargs.get(key), dict) and kwargs[key] and len([k for k in kwargs if kwargs[k]]) >= 2:
+            alone = dict(case, do={}, noise={}, shift={})
+            alone[nm] = case.get(nm, {})
+            law_a = exact_law(alone)
+            if law_a["kappa"] <= KAPPA_MAX:
+                _compare_call(model, law_a, {key: kwargs[key]}, p, "caller_dict_reused", "caller_dict_reused",
+                              "second call passing only the caller's own %s dict object %r again (first call: %r); %s" % (nm, kwargs[key], sorted(kwargs), ctx))
     # further calls on the SAME model (by default an observational one): the law of each call must be the law of
     # its own interventions, whatever was asked before
     for k, spec in enumerate(case.get("followups", [{}])):
